@@ -112,8 +112,6 @@ Section ParseAction.
   Variable consts : pydict string.
   Variable preds : pydict signature.
   Variable funcs : pydict signature.
-  Variable sfuncs : list (string * typed).
-  Hypothesis Hfuncs : forall f sg, dget funcs f = Some sg -> lookup f sfuncs = Some sg.
   Hypothesis Hfkey : forall f sg, dget funcs f = Some sg -> str_in f keywords = false.
   Hypothesis Hpkey : forall p, dmem preds p = true -> str_in p keywords = false.
 
@@ -124,7 +122,7 @@ Section ParseAction.
     read_typed lps = Some params ->
     read_precondition num (SList lpre) = Some f ->
     read_effects num (SList leff) = Some es ->
-    form_ok sfuncs f = true -> forallb (eff_ok sfuncs) es = true ->
+    form_ok f = true -> forallb (eff_ok) es = true ->
     action_faithful
       {| ma_name := lower_string n; ma_sig := sg; ma_pre := p; ma_disc := ea_disc ef; ma_num := ea_num ef;
          ma_cond := ea_cond ef; ma_univ := ea_univ ef |}
@@ -134,8 +132,8 @@ Section ParseAction.
     split; [reflexivity|]. split.
     - destruct (parse_signature_spec tt lps sg Hs) as (rows & Hr & ->). rewrite Hrs in Hr. injection Hr as <-. reflexivity.
     - split.
-      + exact (parse_preconditions_faithful num tt consts preds funcs sfuncs Hfuncs Hfkey Hpkey sg1 _ p f Hp Hrp Hokf).
-      + exact (parse_effects_faithful num tt consts preds funcs sfuncs Hfuncs Hfkey Hpkey sg2 _ ef es He Hre Hoke).
+      + exact (parse_preconditions_faithful num tt consts preds funcs Hfkey Hpkey sg1 _ p f Hp Hrp Hokf).
+      + exact (parse_effects_faithful num tt consts preds funcs Hfkey Hpkey sg2 _ ef es He Hre Hoke).
   Qed.
 
   Ltac binds H :=
@@ -196,7 +194,7 @@ Section ParseAction.
   Theorem parse_action_faithful body ma sa :
     parse_action num tt consts preds funcs body = Ok ma ->
     read_action num body = Some sa ->
-    action_ok sfuncs sa = true ->
+    action_ok sa = true ->
     action_faithful ma sa.
   Proof.
     intros Hp Hr Hok.
